@@ -61,6 +61,7 @@ type Point struct {
 	// i.e. whether choosing somebody else is a preemption.
 	RunningEnabled bool
 	Locs           []string // pending location of each enabled thread
+	Ops            []OpKind // pending operation of each enabled thread
 }
 
 // Chooser picks the index into p.Enabled of the thread to run.
@@ -211,6 +212,7 @@ func (s *Sched) Run(choose Chooser) *Outcome {
 		p := Point{Enabled: en, Running: running, RunningEnabled: runningEnabled}
 		for _, id := range en {
 			p.Locs = append(p.Locs, s.threads[id].loc)
+			p.Ops = append(p.Ops, s.threads[id].op)
 		}
 
 		p.Chosen = choose(len(out.Points), &p)
